@@ -7,6 +7,14 @@ for p in sorted(glob.glob(os.path.join(ROOT, "seeded", "*", "meta.json"))):
     m = json.load(open(p))
     name = os.path.basename(os.path.dirname(p))
     how = "; ".join(sorted({re.sub(r".*replay=\S+\s*", "", v).strip() or "concrete replay" for v in m.get("violation_lines", [])})) or "-"
+    rl = os.path.join(os.path.dirname(p), "recheck.log")
+    if os.path.exists(rl):
+        txt = open(rl).read()
+        last = txt.strip().split("== recheck")[-1]
+        mm = re.search(r"exit (\d+)", last)
+        concrete = bool(re.search(r"^VIOLATION .*replay=\S+\s*$", last, flags=re.M))
+        head = last.strip().splitlines()[0] if last.strip() else ""
+        m["check_result"] += " — re-run after strengthening (%s): %s" % (head.strip(), ("exit 1, concrete replay" if concrete else "exit 1, no-failing-input-found") if mm and mm.group(1) == "1" else "exit %s" % (mm.group(1) if mm else "?"))
     rows.append("| `seeded/%s` | %s | %s | %s | %s |" % (name, m["property"], m["change"].replace("|", "/"), m["needs_to_manifest"].replace("|", "/"), m["check_result"].replace("|", "/")))
 table = "\n".join(["| directory | property | change | needs to manifest | `./check <property> quick` on the changed tree |", "|---|---|---|---|---|"] + rows)
 begin, end = "<!-- SEEDED-BEGIN -->", "<!-- SEEDED-END -->"
